@@ -383,6 +383,138 @@ theorem C04_fd_query_reorder (ord : Order) (dfs : Call → State → State × G)
     (fun s hs => hE s (hperm.mem_iff.2 hs))
   exact ⟨k, k', zs, zs', hk, hk', pz.symm.trans ((hperm.flatMap_right _).trans pz')⟩
 
+/-! ### the hypotheses as ONE Boolean check, for any FD query (the NonVacuity section below is an instance) -/
+section Checked
+variable (ord : Order) (dfs : Call → State → State × G) (pf M N : Nat) (qv : Term)
+
+/-- the labelling data the theorems quantify over, computed -/
+def ckKeys (c : State) : Term := Term.ofList ((ord.ds c.dstore).map fun q => Term.var q.1)
+def ckXs (s : State) : List State := (evalRef dfs N (forceAns ord forceFuel qv) s).getD []
+def ckDs (_ c : State) : List State := (evalRef dfs N (forceAns ord forceFuel (ckKeys ord c)) c).getD []
+def ckYs (_ c : State) : List State :=
+  (drainF (solveAt dfs pf (M + 1)) pf (start dfs (solveAt dfs pf (M + 1)) pf
+    (Goal.conjOfList [forceAns ord forceFuel (ckKeys ord c)]) c)).getD []
+
+def ckBlockOK (c : State) : Bool :=
+  c.panic.isNone && c.allBound && decide (c.dstore.length < forceFuel) &&
+  (match evalRef dfs N (forceAns ord forceFuel (ckKeys ord c)) c with
+   | some ds => ds.all (·.panic.isNone)
+   | none => false) &&
+  (drainF (solveAt dfs pf (M + 1)) pf (start dfs (solveAt dfs pf (M + 1)) pf
+    (Goal.conjOfList [forceAns ord forceFuel (ckKeys ord c)]) c)).isSome &&
+  (ckYs ord dfs pf M c c).all (·.panic.isNone)
+
+def ckStateOK (s : State) : Bool :=
+  s.panic.isNone && s.allBound &&
+  (s.store.all fun q => q.2.isDiseq || (operandsOf q.2).all fun u => (walk s.σ u).isVar || (walk s.σ u).isNum) &&
+  (match evalRef dfs N (forceAns ord forceFuel qv) s with
+   | some xs => xs.all (ckBlockOK ord dfs pf M N)
+   | none => false)
+
+/-- the whole check: the query equation succeeds and every path state passes -/
+def queryFdOK (n : Nat) (p : FProg) (qs : List Term) : Bool :=
+  match postAtom ord (State.empty n) (.eq qv (Term.ofList qs)) with
+  | .ok s1 => (pathStates ord p s1).all (ckStateOK ord dfs pf M N qv)
+  | _ => false
+
+private theorem isNone_none' {α : Type} {o : Option α} (h : o.isNone = true) : o = none := Option.isNone_iff_eq_none.1 h
+
+/-- from the check to the hypotheses of `C16_query_answers_sound` / `C17_query_exactly_once` -/
+theorem queryFdOK_hyps (ho : OrderOK ord) (n : Nat) (p : FProg) (hok : p.OK) (hnz : ∀ path ∈ p.paths, ∀ a ∈ path, a.NoZ)
+    (qs : List Term) (s1 : State) (h1 : postAtom ord (State.empty n) (.eq qv (Term.ofList qs)) = .ok s1)
+    (hc : queryFdOK ord dfs pf M N qv n p qs = true) :
+    ∀ s ∈ pathStates ord p s1, s.panic = none ∧ OpsOK s ∧
+      evalRef dfs N (forceAns ord forceFuel qv) s = some (ckXs ord dfs N qv s) ∧ (∀ c ∈ ckXs ord dfs N qv s, c.panic = none) ∧
+      ∀ c ∈ ckXs ord dfs N qv s, c.allBound = true ∧ c.dstore.length < forceFuel ∧
+        evalRef dfs N (forceAns ord forceFuel (Term.ofList ((ord.ds c.dstore).map fun q => Term.var q.1))) c = some (ckDs ord dfs N s c) ∧
+        (∀ t ∈ ckDs ord dfs N s c, t.panic = none) ∧
+        drainF (solveAt dfs pf (M + 1)) pf
+          (start dfs (solveAt dfs pf (M + 1)) pf
+            (Goal.conjOfList [forceAns ord forceFuel (Term.ofList ((ord.ds c.dstore).map fun q => Term.var q.1))]) c) = some (ckYs ord dfs pf M s c) ∧
+        (∀ t ∈ ckYs ord dfs pf M s c, t.panic = none) := by
+  unfold queryFdOK at hc
+  rw [h1] at hc
+  have hall := List.all_eq_true.1 hc
+  intro s hsm
+  have hst := hall s hsm
+  unfold ckStateOK at hst
+  simp only [Bool.and_eq_true] at hst
+  obtain ⟨⟨⟨hp, hab⟩, hkind⟩, hx⟩ := hst
+  have hpn : s.panic = none := isNone_none' hp
+  have hi := C17_path_state_invariants ho n p hok hnz qv qs s1 h1 s hsm hpn
+  have hops : OpsOK s := C17_opsOK_of_allBound s hab hi.z (fun q hq hd u hu => by
+    have := (List.all_eq_true.1 hkind) q hq
+    rw [hd, Bool.false_or] at this
+    have := (List.all_eq_true.1 this) u hu
+    simpa [Bool.or_eq_true] using this)
+  cases h2 : evalRef dfs N (forceAns ord forceFuel qv) s with
+  | none => rw [h2] at hx; cases hx
+  | some xs =>
+    rw [h2] at hx
+    have hxs := List.all_eq_true.1 hx
+    have eX : ckXs ord dfs N qv s = xs := by unfold ckXs; rw [h2]; rfl
+    rw [eX]
+    have blk : ∀ c ∈ xs, c.panic = none ∧ c.allBound = true ∧ c.dstore.length < forceFuel ∧
+        evalRef dfs N (forceAns ord forceFuel (ckKeys ord c)) c = some (ckDs ord dfs N s c) ∧ (∀ t ∈ ckDs ord dfs N s c, t.panic = none) ∧
+        drainF (solveAt dfs pf (M + 1)) pf (start dfs (solveAt dfs pf (M + 1)) pf
+          (Goal.conjOfList [forceAns ord forceFuel (ckKeys ord c)]) c) = some (ckYs ord dfs pf M s c) ∧
+        (∀ t ∈ ckYs ord dfs pf M s c, t.panic = none) := by
+      intro c hc'
+      have hb := hxs c hc'
+      unfold ckBlockOK at hb
+      simp only [Bool.and_eq_true, decide_eq_true_eq] at hb
+      obtain ⟨⟨⟨⟨⟨b1, b2⟩, b3⟩, b4⟩, b5⟩, b6⟩ := hb
+      refine ⟨isNone_none' b1, b2, b3, ?_, ?_, ?_, fun t ht => isNone_none' ((List.all_eq_true.1 b6) t ht)⟩
+      · unfold ckDs; cases he : evalRef dfs N (forceAns ord forceFuel (ckKeys ord c)) c with
+        | none => rw [he] at b4; cases b4
+        | some ds => rfl
+      · unfold ckDs; cases he : evalRef dfs N (forceAns ord forceFuel (ckKeys ord c)) c with
+        | none => rw [he] at b4; cases b4
+        | some ds =>
+          rw [he] at b4
+          intro t ht
+          exact isNone_none' ((List.all_eq_true.1 b4) t ht)
+      · unfold ckYs
+        cases hd : drainF (solveAt dfs pf (M + 1)) pf (start dfs (solveAt dfs pf (M + 1)) pf
+            (Goal.conjOfList [forceAns ord forceFuel (ckKeys ord c)]) c) with
+        | none => rw [hd] at b5; cases b5
+        | some ys => rfl
+    exact ⟨hpn, hops, rfl, fun c hc' => (blk c hc').1, fun c hc' => (blk c hc').2⟩
+
+/-- `C16_query_checked` — for ANY FD query run from the empty state whose body posts well-formed domains and propagators and no
+    CLP(Z) constraint: if the Boolean check passes, the engine terminates on the query goal and EVERY answer is the reified form of
+    a closed state along one path whose own substitution satisfies every atom of that path (C16), and every valuation a path state
+    describes lies in a block whose answer the engine delivers (C17). -/
+theorem C16_query_checked (ho : OrderOK ord) (n : Nat) (p : FProg) (hok : p.OK) (hnz : ∀ path ∈ p.paths, ∀ a ∈ path, a.NoZ)
+    (qs : List Term) (hc : queryFdOK ord dfs pf M N qv n p qs = true) :
+    ∃ s1, postAtom ord (State.empty n) (.eq qv (Term.ofList qs)) = .ok s1 ∧
+    (∃ (k : Nat) (zs : List State),
+      drainF (solveAt dfs pf (M + 2)) k (solveAt dfs pf (M + 2) (queryG ord qv qs [p.goal ord]) (State.empty n)) = some zs ∧
+      ∀ z ∈ zs, ∃ path ∈ p.paths, ∃ b : State, z = reifyState ord b qv ∧ b.dstore = [] ∧
+        (b.store = [] → (TAtom.eq qv (Term.ofList qs)).Sat b.σ ∧ ∀ a ∈ path, a.Sat b.σ)) ∧
+    (∃ (k : Nat) (zs : List State),
+      drainF (solveAt dfs pf (M + 2)) k (solveAt dfs pf (M + 2) (queryG ord qv qs [p.goal ord]) (State.empty n)) = some zs ∧
+      ∀ s ∈ pathStates ord p s1, ∀ γ, Sem NoI γ s →
+        ∃ c ∈ ckXs ord dfs N qv s, Sem NoI γ c ∧ ∃ b, (ckYs ord dfs pf M s c).head? = some b ∧ reifyState ord b qv ∈ zs) := by
+  have hc' := hc
+  unfold queryFdOK at hc'
+  cases h1 : postAtom ord (State.empty n) (.eq qv (Term.ofList qs)) with
+  | ok s1 =>
+    have hyp := queryFdOK_hyps ord dfs pf M N qv ho n p hok hnz qs s1 h1 hc
+    have hl : (liftRes fun st => postAtom ord st (.eq qv (Term.ofList qs))) (State.empty n) = some s1 := by
+      simp only [liftRes, h1]; rfl
+    refine ⟨s1, rfl, ?_, ?_⟩
+    · exact C16_query_answers_sound ho dfs pf M n p hok hnz qv qs s1 h1 (fun _ => N) (ckXs ord dfs N qv) (fun _ _ => N)
+        (ckDs ord dfs N) (ckYs ord dfs pf M) hyp
+    · exact C17_query_complete ho dfs pf M p qv qs (State.empty n) s1 hl (fun _ => N) (ckXs ord dfs N qv) (fun _ _ => N)
+        (ckDs ord dfs N) (ckYs ord dfs pf M)
+        (fun s hsm => ⟨C17_path_state_invariants ho n p hok hnz qv qs s1 h1 s hsm (hyp s hsm).1, hyp s hsm⟩)
+  | fail => rw [h1] at hc'; cases hc'
+  | fuel => rw [h1] at hc'; cases hc'
+  | panic _ => rw [h1] at hc'; cases hc'
+
+end Checked
+
 /-! NON-VACUITY of `C17_query_exactly_once` by instantiation: `|x| { x in 1..2, y in 1..2, x != y }` (FD `!=`; `y` hidden,
     `__query__` = `x2`).  Every Boolean side condition is computed by ONE `decide +kernel`; the labelling invariants come from
     `C17_path_state_invariants`, `OpsOK` from `C17_opsOK_of_allBound`; the theorem is then applied. -/
@@ -549,6 +681,20 @@ example : ∃ (s1 : State) (k : Nat) (zs : List State) (blocks : State → List 
     (fun _ => 40) qXs (fun _ _ => 40) qDs qYs
     (fun s hsm => ⟨C17_path_state_invariants qOrderOK 3 qP qOK qNoZ qV [.var 0] s1 h1 s hsm (qHyps s1 h1 s hsm).1, qHyps s1 h1 s hsm⟩)
   exact ⟨s1, k, zs, blocks, hk, hpw⟩
+/-- `C16_query_checked` on a query with TWO paths and a hidden variable: `|x| { x in 1..3, y in 1..3, conde { x + y = 4 ; [x != 2, y <= 1] } }`
+    — one `decide +kernel`, then soundness and completeness of the engine's answers for this query are theorems -/
+private def qP2 : FProg := .conj (.atom (.dom (.var 0) (.interval 1 3))) (.conj (.atom (.dom (.var 1) (.interval 1 3)))
+  (.alt (.atom (.cst (.plusfd (.var 0) (.var 1) (Term.num 4))))
+    (.conj (.atom (.cst (.diseqfd (.var 0) (Term.num 2)))) (.atom (.cst (.ltefd (.var 1) (Term.num 1)))))))
+example := C16_query_checked Order.default qDfs 30 1 60 (.var 2) qOrderOK 3 qP2
+  ⟨by show (1 : Int) ≤ 3; decide, by show (1 : Int) ≤ 3; decide, trivial, trivial, trivial⟩
+  (by
+    intro path hpath a ha
+    simp only [qP2, FProg.paths, List.flatMap_cons, List.flatMap_nil, List.map_cons, List.map_nil, List.append_nil,
+      List.cons_append, List.nil_append, List.mem_cons, List.mem_nil_iff, or_false] at hpath
+    rcases hpath with rfl | rfl <;> simp only [List.mem_cons, List.mem_nil_iff, or_false] at ha <;>
+      rcases ha with rfl | rfl | rfl | rfl <;> first | trivial | rfl)
+  [.var 0] (by decide +kernel)
 end NonVacuity
 
 section Examples
